@@ -10,18 +10,23 @@ GfMulDef(a, b) ==
   LET f(acc, k) == [p |-> IF (b \div Pow2(k)) % 2 = 1 THEN acc.p ^^ acc.x ELSE acc.p,
                     x |-> GfDouble(acc.x)]
   IN FoldLeft(f, [p |-> 0, x |-> a], <<0, 1, 2, 3, 4>>).p
-GfMulT == [a \in 0..31 |-> [b \in 0..31 |-> GfMulDef(a, b)]]
-GfMul(a, b) == GfMulT[a][b]
+GfMulT == MkSeq(32, LAMBDA a : MkSeq(32, LAMBDA b : GfMulDef(a - 1, b - 1)))
+GfMul(a, b) == GfMulT[a + 1][b + 1]
 
 \* generator low coefficients, x^(deg-1) .. x^0 (monic)
 GCash == <<19, 3, 25, 11, 25, 3, 19, 1>>
 GBech == <<29, 22, 20, 21, 29, 18>>
 
-\* one remainder step: c(x) := c(x) * x + d  (mod g)
+\* one remainder step: c(x) := c(x) * x + d  (mod g).  Written with explicit tuples:
+\* TLC evaluates function constructors lazily and would re-evaluate the chain.
 RemStep(G, c, d) ==
-  LET n == Len(G) IN
-  [i \in 1..n |-> (IF i < n THEN c[i + 1] ELSE d) ^^ GfMul(c[1], G[i])]
-UnitPoly(n) == [i \in 1..n |-> IF i = n THEN 1 ELSE 0]
+  LET t == c[1] IN
+  IF Len(G) = 8
+    THEN <<c[2] ^^ GfMul(t, G[1]), c[3] ^^ GfMul(t, G[2]), c[4] ^^ GfMul(t, G[3]), c[5] ^^ GfMul(t, G[4]),
+           c[6] ^^ GfMul(t, G[5]), c[7] ^^ GfMul(t, G[6]), c[8] ^^ GfMul(t, G[7]), d ^^ GfMul(t, G[8])>>
+    ELSE <<c[2] ^^ GfMul(t, G[1]), c[3] ^^ GfMul(t, G[2]), c[4] ^^ GfMul(t, G[3]), c[5] ^^ GfMul(t, G[4]),
+           c[6] ^^ GfMul(t, G[5]), d ^^ GfMul(t, G[6])>>
+UnitPoly(n) == IF n = 8 THEN <<0, 0, 0, 0, 0, 0, 0, 1>> ELSE <<0, 0, 0, 0, 0, 1>>
 \* remainder of (x^len(v) + v(x)) modulo g, as symbols x^(deg-1)..x^0
 PolyRem(G, v) == FoldLeft(LAMBDA c, d : RemStep(G, c, d), UnitPoly(Len(G)), v)
 XorLast(c) == [c EXCEPT ![Len(c)] = c[Len(c)] ^^ 1]
@@ -47,6 +52,6 @@ Charset32 == <<113,112,122,114,121,57,120,56,103,102,50,116,118,100,119,48,
                115,51,106,110,53,52,107,104,99,101,54,109,117,97,55,108>>
 CharOf32(v) == Charset32[v + 1]
 \* value of an ASCII code in the alphabet, -1 if foreign (lower case only)
-Val32T == [c \in 0..255 |-> LET k == IndexOf(Charset32, c) IN k - 1]
-Val32(c) == IF c \in 0..255 THEN Val32T[c] ELSE -1
+Val32T == MkSeq(256, LAMBDA c : IndexOf(Charset32, c - 1) - 1)
+Val32(c) == IF c \in 0..255 THEN Val32T[c + 1] ELSE -1
 =============================================================================
